@@ -2,6 +2,7 @@ package rules
 
 import (
 	"go/token"
+	"go/types"
 
 	"golang.org/x/tools/go/ssa"
 
@@ -157,7 +158,24 @@ func ruleRetryListDedup(c *eng.Ctx) {
 			}
 		}
 	}
-	c.Check(okOuter, rule, "retry.List:set-survives-retries", fn.Pos(), "the set of reported names is created once per List call, outside the retried operation")
+	// … and is never re-created or reassigned inside the retried operation
+	for _, l := range c.P.Lits(fn) {
+		for _, b := range l.Blocks {
+			for _, in := range b.Instrs {
+				switch x := in.(type) {
+				case *ssa.MakeMap:
+					okOuter = false
+				case *ssa.Store:
+					if _, isFV := x.Addr.(*ssa.FreeVar); isFV {
+						if _, isMap := x.Val.Type().Underlying().(*types.Map); isMap {
+							okOuter = false
+						}
+					}
+				}
+			}
+		}
+	}
+	c.Check(okOuter, rule, "retry.List:set-survives-retries", fn.Pos(), "the set of reported names is created once per List call, outside the retried operation, and never reset inside it")
 }
 
 // ruleRetryPermanent (C35): permanent errors stop the retry loop, and all five operations
